@@ -267,12 +267,35 @@ func cotMode(args []string) int {
 			}
 			f, ck := genChoices(r, n)
 			b := cbatch{flags: f, ckind: ck, reinit: j > 0 && r.Intn(3) == 0}
-			if kind == "c" || r.Intn(2) == 0 {
-				// ROT.Send overwrites the caller's wires: half of the time they
-				// hold something else before
+			if kind == "c" || (i/2+j)%2 == 0 {
+				// ROT.Send overwrites the caller's wires: every other batch
+				// they hold something else before
 				b.wires = genWires(r, n)
 			}
 			batches = append(batches, b)
+		}
+		// Planned buffer classes (deterministic in the case index): the first
+		// batch of cases i%8 < 4 gets a fresh slice, of cases i%8 >= 4 the
+		// class bufClasses[(i/8)%5]; cases with (i/8)%2 == 1 run a second batch
+		// of the same size INTO THE SAME SLICE.  Everything else is random.
+		planned := ""
+		if i%8 >= 4 {
+			planned = bufClasses[(i/8)%len(bufClasses)]
+		}
+		sameSlice := planned != "" && (i/8)%2 == 1
+		if sameSlice {
+			n := len(batches[0].flags)
+			f, ck := genChoices(r, n)
+			b := cbatch{flags: f, ckind: ck}
+			if kind == "c" || (i/2+1)%2 == 0 {
+				b.wires = genWires(r, n)
+			}
+			if len(batches) < 2 {
+				batches = append(batches, b)
+				nb = 2
+			} else {
+				batches[1] = b
+			}
 		}
 		arenaL := 0
 		for _, b := range batches {
@@ -280,13 +303,18 @@ func cotMode(args []string) int {
 				arenaL = len(b.flags)
 			}
 		}
-		if r.Intn(3) > 0 {
+		if i%3 != 0 || planned == "kept_subslice" {
 			arenaL += 1 + r.Intn(9)
 		}
 		for j := range batches {
-			batches[j].rbuf = genBuf(r, len(batches[j].flags), arenaL, true, j == 0)
-			if j == 0 && i < 2*len(sweepSizes) && i%8 < 4 {
-				batches[j].rbuf = bufSpec{fresh: true}
+			batches[j].rbuf = genBuf(r, len(batches[j].flags), arenaL, true)
+			if j == 0 {
+				batches[j].rbuf = genBufClass(r, map[bool]string{true: "fresh", false: planned}[planned == ""],
+					len(batches[j].flags), arenaL, true)
+			}
+			if j == 1 && sameSlice {
+				batches[j].rbuf = bufSpec{pre: "k", off: batches[0].rbuf.off}
+				o.Count("cot_same_slice_as_previous_call")
 			}
 		}
 		stape := r.Bytes(16 + 16*nb)
